@@ -353,6 +353,30 @@ example : tagScanSpec exTSD [0, 1, 2, 3] =
     [⟨0, "Component", "wire", "a", true⟩, ⟨1, "Component", "wire", "b", true⟩, ⟨3, "Component", "x", "c,required", false⟩] := by
   decide
 
+/-- the value scanner's ExtractHandler — the function literal in NewValueAwarePostProcessors, regenerated (interpretation
+    `vxFn`: the field's `prop` tag, `strings2.IndexSkipBlocks` and Go's slice expressions are parameters, an out-of-range slice
+    is `none`): no `prop` tag — not recognised; else `${key}` followed, unchanged, by the text from the first top-level comma
+    on; the tag is left empty (so: `d.Tag`) -/
+theorem C11_code_valueExtract (o : VXOps) :
+    run (vxPrims o) Progs.scan_valueExtract [.ref 0 1, .ref 0 60] () = (valueExtractS o).map (fun r => (encExtract r, ())) :=
+  valueExtract_sem o
+
+/-- the properties scanner's ExtractHandler, regenerated: recognised exactly when the field's value implements
+    ConfigurationProperties, with what its `Prefix()` returns as the tag text -/
+theorem C11_code_markerExtract (marker : Option String) :
+    run (mxPrims marker) Progs.scan_markerExtract [.ref 0 1, .ref 0 60] () =
+      some (encExtract (match marker with | some p => ("", p, true) | none => ("", "", false)), ()) :=
+  markerExtract_sem marker
+
+/-- … and the model's `valueExtract` / `markerExtract` (with `Tag.propShorthand?`, whose `none` is the slice panic) ARE those
+    functions, for every scanned field -/
+theorem C11_extract_is_code (f : ScannedField) :
+    valueExtractS (vxOf f) = encExtractB (valueExtract f) ∧
+    (match f.info.marker.map encB with
+     | some p => some ("", p, true)
+     | none => some ("", "", false)) = encExtractB (markerExtract f) :=
+  ⟨valueExtract_is_code f, markerExtract_is_code f⟩
+
 end code
 
 end Ioc.C11
